@@ -55,4 +55,4 @@ Definition example_ops : list op :=
    SetClock 10; Alloc 2 KNone (mk_label 381 2 (-1)); Alloc 2 (KOpt (mk_key 113 1)) (mk_label 2 2 (-1));
    Alloc 2 KNone (mk_label 3 2 1);
    Alloc 2 KNone (mk_label_u 382 7 2);                      (* 191 two-byte characters = 382 bytes *)
-   Alloc 9 KNone (mk_label_u 380 7 3); Dump].               (* 380 bytes of UTF-8; reuses id 0, which reads 0 *)
+   AllocSnap 9 (mk_key 8 2) (mk_label_u 380 7 3); Dump].               (* 380 bytes of UTF-8; reuses id 0, which reads 0; its key callback looks at the counters *)
